@@ -752,6 +752,7 @@ def part_c(ctx, bins_future, pool, rnd):
 def replay(ctx):
     """./check C20 --replay <dir>: re-run the schedule / run of a reported violation three times"""
     spec = json.load(open(os.path.join(ctx.replay, "replay.json")))
+    ctx.finish = lambda **kw: None            # a replay must not overwrite the evidence of the last full run
     bins = ctx.build(["parmap", "taintrace"], race=True)
     if spec["kind"] == "parmap":
         s = dict(spec["schedule"])
